@@ -85,6 +85,21 @@ def fragment_header(state):
 
         state["_picture_initial_fragment_offset"] = fragment_offset
     else:
+        # Errata: not specified in standard...
+        #
+        # (14.2) A fragment containing slices may only appear after the first
+        # fragment (with fragment_slice_count==0) of a fragmented picture. If
+        # no fragmented picture has been started in this sequence none of the
+        # state checked below exists yet.
+        if "_picture_initial_fragment_offset" not in state:
+            raise TooManySlicesInFragmentedPicture(
+                fragment_offset,
+                fragment_offset,
+                0,
+                0,
+                state["fragment_slice_count"],
+            )
+
         # (14.2) Appart from when fragment_slice_count==0, the picture number
         # must not change
         if state["_last_picture_number"] != state["picture_number"]:
